@@ -17,14 +17,14 @@ one() {
   echo "$w/$id $first $rc"
 }
 export -f one
-ls -d seeded/C*/ seeded2/C*/ seeded3/C*/ seeded4/C*/ | sed 's:/$::' | xargs -P $J -I{} bash -c "one {} $TMP"
+ls -d seeded/C*/ seeded2/C*/ seeded3/C*/ seeded4/C*/ seeded5/C*/ | sed 's:/$::' | xargs -P $J -I{} bash -c "one {} $TMP"
 OUT=seeded/RESULTS.md
 echo "# Seeded changes vs. checks (bin/seedall.sh, /repo HEAD $(git -C /repo rev-parse --short HEAD), $(date -u +%FT%TZ))" > $OUT
 echo "" >> $OUT
-echo "Wave 1 = seeded/, wave 2 = seeded2/, wave 3 = seeded3/, wave 4 = seeded4/.  The check is the first entry of the seed's meta.json \`checks\` (the property's own check unless noted there)." >> $OUT
+echo "Wave 1 = seeded/, wave 2 = seeded2/, wave 3 = seeded3/, wave 4 = seeded4/, wave 5 = seeded5/.  The check is the first entry of the seed's meta.json \`checks\` (the property's own check unless noted there)." >> $OUT
 echo "" >> $OUT
 echo "| wave | seed | check | exit code with the patch | first violation line |" >> $OUT
 echo "|---|---|---|---|---|" >> $OUT
-cat $TMP/seeded.*.row $TMP/seeded2.*.row $TMP/seeded3.*.row $TMP/seeded4.*.row 2>/dev/null | sed 's/^| \. |/| 1 |/; s/^| 2\. |/| 2 |/; s/^| 3\. |/| 3 |/; s/^| 4\. |/| 4 |/' >> $OUT
+cat $TMP/seeded.*.row $TMP/seeded2.*.row $TMP/seeded3.*.row $TMP/seeded4.*.row $TMP/seeded5.*.row 2>/dev/null | sed 's/^| \. |/| 1 |/; s/^| 2\. |/| 2 |/; s/^| 3\. |/| 3 |/; s/^| 4\. |/| 4 |/; s/^| 5\. |/| 5 |/' >> $OUT
 rm -rf $TMP
 git -C /repo status --short | head -2
